@@ -24,6 +24,15 @@ def check(ctx, cfg):
     r_update_admin(ctx, cfg)
     r_migrate(ctx, cfg)
     r_layering(ctx, cfg)
+    r_dispatch(ctx, cfg)
+
+
+def r_dispatch(ctx, cfg):
+    """"succeed only when sent by the contract's current admin ... attempted by ... other contracts": what the migrate entry point
+    (or any other) makes the contract send is sent as that contract, never with the identity of whoever triggered it - the
+    callee == contract handed to process_response obligations of C05.R4 under C12's id"""
+    from rules import C05
+    C05.r4_dispatch(ctx, cfg, "C12.R5")
 
 
 def r_layering(ctx, cfg):
@@ -139,8 +148,11 @@ def r_update_admin(ctx, cfg):
         ok = ch is not None and set(k for k in ch if not (isinstance(k, tuple) and k[0] == "&mut")) == {"admin"}
         newv = [ch["admin"]] if ok else []
         if ok:
+            # the new value comes from `new_admin` alone (so None clears): nothing of the sender, of the record loaded before
+            # or of any other input goes into it
             ok = contains(newv[0], lambda x: x[0] == "param" and x[2] == "new_admin") and \
-                not contains(newv[0], lambda x: x[0] == "param" and x[2] in ("sender",))
+                not contains(newv[0], lambda x: x[0] == "param" and x[2] not in ("new_admin", "api")) and \
+                not contains(newv[0], lambda x: x[0] == "call" and x[1] == "wasm::Wasm::contract_data")
         ctx.ob("C12.R2", key, "saves-loaded-record-with-only-admin-replaced", ok, "update_admin saves %s" % fmt(a[3])[:200], fn=f, line=t["line"],
                sample="contract_data with {admin: validated new_admin | None}")
         ctx.ob("C12.R2", key, "saved-under-looked-up-address", contains(addr, lambda x: x[0] == "call" and x[1].endswith("Api::addr_validate") and is_param(x[2][1], "contract_addr")),
@@ -208,10 +220,11 @@ def r_update_admin(ctx, cfg):
         ctx.ob("C12.R1", ek, "two-admin-arms", n == 2, "expected UpdateAdmin and ClearAdmin arms, found %d" % n, fn=e, sample="2")
 
 
-def r_migrate(ctx, cfg):
+def r_migrate(ctx, cfg, R3="C12.R3", full=True):
     F, P = cfg.facts, cfg.prov
+    ob1 = ctx.ob if full else (lambda *a, **k: None)
     key = W + "execute_wasm"
-    f = ctx.need_fn("C12.R1", key)
+    f = ctx.need_fn("C12.R1" if full else R3, key)
     if f is None:
         return
     cf = cfg_of(f)
@@ -222,7 +235,7 @@ def r_migrate(ctx, cfg):
 
     sc = [(b, t) for b, t in q.calls(f, W + "save_contract") if arm_of(b) == "Migrate"]
     cm = [(b, t) for b, t in q.calls(f, W + "call_migrate") if arm_of(b) == "Migrate"]
-    ctx.ob("C12.R1", key, "migrate-shape", len(sc) == 1 and len(cm) == 1, "Migrate arm must have one save_contract and one call_migrate (found %d/%d)" % (len(sc), len(cm)),
+    ctx.ob("C12.R1" if full else R3, key, "migrate-shape", len(sc) == 1 and len(cm) == 1, "Migrate arm must have one save_contract and one call_migrate (found %d/%d)" % (len(sc), len(cm)),
            fn=f, sample="1/1")
     if len(sc) != 1 or len(cm) != 1:
         return
@@ -231,32 +244,32 @@ def r_migrate(ctx, cfg):
     addr = sa[2]
     for name, bid, t in (("save_contract", sb, st), ("call_migrate", mb, mt)):
         g = _admin_guard(P, f, bid, addr)
-        ctx.ob("C12.R1", key, "migrate-only-by-admin:%s" % name, g is not None,
+        ob1("C12.R1", key, "migrate-only-by-admin:%s" % name, g is not None,
                "%s in the Migrate arm is not dominated by `contract_data(addr).admin == Some(sender)`" % name, fn=f, line=t["line"],
                sample="dominated by admin == Some(sender)")
         if g is not None and name == "save_contract":
             bad = []
             for fe in _failing_edge(P, f, cf, g):
                 bad += _writes_after(f, cf, fe)
-            ctx.ob("C12.R1", key, "non-admin-migrate-writes-nothing", not bad, "the non-admin path reaches %s" % bad, fn=f, sample="no storage write")
+            ob1("C12.R1", key, "non-admin-migrate-writes-nothing", not bad, "the non-admin path reaches %s" % bad, fn=f, sample="no storage write")
     around = [site for site, val in q.success_return_sites(P, f) if arm_of(site[0]) == "Migrate" and _admin_guard(P, f, site[0], addr) is None]
-    ctx.ob("C12.R1", key, "migrate-success-only-by-current-admin", not around,
+    ob1("C12.R1", key, "migrate-success-only-by-current-admin", not around,
            "the Migrate arm can produce a success result at block(s) %s without passing `contract_data(addr).admin == Some(sender)`" % sorted(set(b for b, i in around)),
            fn=f, sample="every non-Err result of the arm dominated by the admin guard")
     rec = peel(sa[3])
     chm = q.record_update(sa[3], lambda o: peel(o)[0] == "ok" and peel(peel(o)[1])[0] == "call" and peel(peel(o)[1])[1] == "wasm::Wasm::contract_data")
     ok = chm is not None and set(k for k in chm if not (isinstance(k, tuple) and k[0] == "&mut")) == {"code_id"} and is_param_field(chm["code_id"], "msg", "new_code_id")
-    ctx.ob("C12.R2", key, "saves-loaded-record-with-only-code_id-replaced", ok, "Migrate saves %s" % fmt(rec)[:200], fn=f, line=st["line"],
+    ob1("C12.R2", key, "saves-loaded-record-with-only-code_id-replaced", ok, "Migrate saves %s" % fmt(rec)[:200], fn=f, line=st["line"],
            sample="contract_data with {code_id: new_code_id}")
-    ctx.ob("C12.R2", key, "saved-under-looked-up-address", contains(addr, lambda x: x[0] == "call" and x[1].endswith("Api::addr_validate") and
+    ob1("C12.R2", key, "saved-under-looked-up-address", contains(addr, lambda x: x[0] == "call" and x[1].endswith("Api::addr_validate") and
                                                                       contains(x[2][1], lambda y: is_param_field(y, "msg", "contract_addr"))),
            "record saved under %s" % fmt(addr)[:100], fn=f, sample="addr_validate(contract_addr)?")
     # R3: new code id recorded before the migrate entry point runs, on the same address and store
     conds = q.dominating_conditions(P, f, mb)
     ok = any(c[0] == "variant_in" and c[2] in (("Continue",), ("Ok",)) and peel(c[1])[0] == "call" and peel(c[1])[1] == W + "save_contract" for e, c in conds)
-    ctx.ob("C12.R3", key, "new-code-recorded-before-migrate-runs", ok, "call_migrate is not dominated by the success of save_contract", fn=f, line=mt["line"],
+    ctx.ob(R3, key, "new-code-recorded-before-migrate-runs", ok, "call_migrate is not dominated by the success of save_contract", fn=f, line=mt["line"],
            sample="call_migrate dominated by Continue(save_contract(..))")
-    ctx.ob("C12.R3", key, "migrate-runs-on-same-address-and-store", same_origin(ma[1], addr) and is_param(ma[3], "storage") and is_param(sa[1], "storage"),
+    ctx.ob(R3, key, "migrate-runs-on-same-address-and-store", same_origin(ma[1], addr) and is_param(ma[3], "storage") and is_param(sa[1], "storage"),
            "call_migrate runs on %s, record saved under %s" % (fmt(ma[1])[:60], fmt(addr)[:60]), fn=f, line=mt["line"], sample="same address, same storage")
-    ctx.ob("C12.R3", key, "migrate-message-forwarded", contains(ma[6], lambda x: is_param_field(x, "msg", "msg")), "migrate message is %s" % fmt(ma[6])[:80], fn=f,
+    ctx.ob(R3, key, "migrate-message-forwarded", contains(ma[6], lambda x: is_param_field(x, "msg", "msg")), "migrate message is %s" % fmt(ma[6])[:80], fn=f,
            sample="msg.to_vec()")
